@@ -139,7 +139,8 @@ def eval_case(case):
         return {"status": "refused", "problems": ["build: %s" % type(exc).__name__]}
     except (KeyError, IndexError, AttributeError) as exc:
         if case["mode"] == "scratch":
-            raise
+            return {"status": "bad", "problems": ["the documented public API could not be used to build the description: %s: %s"
+                                                  % (type(exc).__name__, str(exc)[:120])]}
         return {"status": "bad", "problems": ["the re-read parent object does not hold what was written to it, the next "
                                               "edit cannot be applied: %s" % type(exc).__name__]}
     status, problems = oracle(spec, obj, via_file=shallow and case["mode"] == "scratch",
